@@ -135,6 +135,10 @@ def check(case):
         elif ftype == "fault":
             f = dict(failure["fault"], call=env.ncalls)
             net.plan([f])
+        elif ftype == "faults":
+            if case.get("warm"):
+                env.call(c.get, "warm-up")          # the connection exists before the failing call
+            net.plan([dict(f, call=env.ncalls) for f in failure["faults"]])
         r = env.call(fn)
         fired = bool([x for x in net.fired if x["fault"].get("call") == env.ncalls - 1 or x["fault"].get("server_down")]) or ftype in ("serde", "retry-window", "all-dead")
         if r[0] != "ok":
@@ -143,7 +147,7 @@ def check(case):
         if not same_miss(got, miss):
             # a planned fault may turn out harmless (a swallowed close() error, a tampering aimed at a reply that was
             # never produced): then, and only for injected faults, the genuine hit is the right answer
-            if not (ftype == "fault" and _equal_hit(got, hit)):
+            if not (ftype in ("fault", "faults") and _equal_hit(got, hit)):
                 raise Violation(["shape", kind, call["op"]], "returned %s, a miss returns %s (hit would be %s): %s"
                                 % (_show(got, D, C), _show(miss, D, C), _show(hit, D, C), desc))
         # 3. still usable afterwards
@@ -163,6 +167,8 @@ def check(case):
             raise Violation(["unusable-afterwards", kind], "after the failure, set/get on the same object give %r: %s" % (last, desc))
     labels = [kind, call["op"], "failure=" + ftype + (":" + str(failure.get("what") or failure.get("how") or (failure.get("fault", {}).get("tamper") or failure.get("fault", {}).get("what")))
                                                        if ftype in ("down", "serde", "fault") else "")]
+    if ftype == "faults":
+        labels.append("two-faults-fired=%d" % len([x for x in net.fired if x["fault"].get("call") is not None]))
     if not fired:
         labels.append("fault-did-not-fire")
     return bool(fired) and call["op"] != "get", labels
@@ -244,6 +250,16 @@ def sweep_cases(tier, seed):
             for j, ln in enumerate(lens):
                 for f in faultlab.tampers_for_reply(j, ln):
                     yield dict(base, failure={"type": "fault", "fault": f})
+            # a first socket-level fault followed - should anything retry inside the call - by a fault of a different kind
+            firsts = [{"kind": "recv", "nth": 0, "what": "reset"}, {"kind": "sendall", "nth": 0, "what": "pipe", "delivered": "none"},
+                      {"kind": "sendall", "nth": 0, "what": "reset", "delivered": "all"}, {"kind": "recv", "nth": 0, "what": "timeout"}]
+            seconds = [{"kind": "recv", "nth": 1, "what": "eof"}, {"reply": 1, "tamper": "server_error"}, {"reply": 1, "tamper": "garbage"},
+                       {"reply": 1, "tamper": "error"}, {"reply": 1, "tamper": "trunc", "at": 3, "then": "eof"}, {"kind": "connect", "nth": 1, "what": "refused"},
+                       {"reply": 0, "tamper": "client_error"}, {"kind": "recv", "nth": 2, "what": "eof"}]
+            for warm in (False, True):
+                for f1 in firsts:
+                    for f2 in seconds:
+                        yield dict(base, warm=warm, failure={"type": "faults", "faults": [f1, f2]})
 
 
 def random_strategy(tier):
